@@ -280,6 +280,13 @@ class C02(Check):
         from checks import helpers_c07
         return helpers_c07.contracts()
 
+
+    def audits(self, tier):
+        # the envelope's own model_dump override and the fallback backend's serialisation are repository code: the emitted
+        # envelopes are exercised natively under both backends (bounded, never counted as proved)
+        from checks import native
+        return [lambda: native.audit_both_backends("C02.", tier)]
+
     def static_checks(self, repo):
         path = os.path.join(os.path.dirname(__file__), "c02_emitters.txt")
         found = discover_emitters(repo)
